@@ -15,6 +15,8 @@ type Login struct {
 	Inner    Reactor
 	EchoUser bool
 	OnEOF    func() // called (under the device mutex) when the script says the peer closes the stream
+	// Trailer: what the device prints right after the first shell prompt without being asked (a late log line and the prompt again)
+	Trailer string
 
 	idx   int
 	state string // "" | askuser | askpass | askpassphrase | shell | silence | end
@@ -41,6 +43,8 @@ func (l *Login) advance(out *bytes.Buffer) {
 			if l.Inner != nil {
 				out.Write(l.Inner.Start())
 			}
+
+			out.WriteString(l.Trailer)
 
 			return
 		case "silence":
